@@ -21,7 +21,7 @@ RULE = ('histories (8–45 ops) over 1–3 real streams (single- and multi-phase
         'second package with other order + Propanol): reads and writes through imol/imass/ivol, F_*, get/set_flow, '
         'whole-view assignment (s.mass = o.mass, s.vol = o.vol, ivol.data.copy_like(o.vol), imass[phase] = row / ndarray) '
         'between streams of different T / P / phase, get/set_total_flow in kmol/hr, mol/s, kg/hr, lb/hr, g/min, m3/hr, L/min, gal/min (+ non-flow units), '
-        'interleaved with T, P, phase, phases, link_with (8 flag combinations), unlink, copy_like, _reset_thermo, '
+        'on originals, phase views ms[phase], proxy() and flow_proxy() objects, interleaved with T, P, phase, phases, link_with (8 flag combinations), unlink, copy_like, _reset_thermo, '
         'mix_from, scale, empty and reactions defined on another property package (reset_chemicals with container); '
         'a grid enumerates link flags × class × follow-up and all unit pairs; non-trivial = a cached view was read, '
         'a structural/thermal change happened, and a view was read again; distinct = distinct op sequences')
@@ -35,7 +35,10 @@ ASSUMPTIONS = [
     'ThermalCondition.in_equilibrium (|ΔT|,|ΔP| < 1e-12) is modelled as equality',
     'the model mirrors /repo with fixes C11-1..4 and the C12/C13 copy_like / unlink / phases-setter repairs applied',
     'arithmetic: model exact (Rat), implementation binary64; compared with rtol 1e-9 / atol 1e-12',
-    'not generated: phase-view streams ms[phase], proxies, linking multi-phase streams with different phase sets or '
+    'not generated: re-classing / re-linking a phase view itself (setphase(s), link_with as receiver, copy_like, unlink, '
+    '_reset_thermo, proxies of a view: model answers Precondition), _reset_thermo on a stream that has a proxy, '
+    'attachment of the phase views of a stream whose indexer another stream object holds (fixes_proposed/C11-6), '
+    'linking multi-phase streams with different phase sets or '
     'streams of different packages by flow, _expand_phases on a data object shared with another stream, '
     'mix_from with fewer than two non-empty inlets or inlets of another package, '
     'view-to-view assignment whose source is a different view object over the receiver\'s own molar rows '
@@ -54,8 +57,8 @@ UNIT_FACTOR = {}
 CONV = {}
 CFG = []          # (model line, expected answer)
 RTOL, ATOL = 1e-9, 1e-12
-# Assigning a view from a *different* view object over the very same molar rows (flow-linked streams) wipes the data in
-# the code as found (fixes_proposed/C11-5).  Not generated until that repair is committed; then set this to True.
+# Assigning a view from a *different* view object over the very same molar rows (flow-linked streams, phase views) wiped
+# the data before a8461dd (fixes_proposed/C11-5); C11_ALIASED=0 switches these cases off.
 import os
 ALLOW_ALIASED_ASSIGN = os.environ.get('C11_ALIASED', '1') == '1'   # repaired in /repo by a8461dd
 
@@ -167,6 +170,7 @@ class World:
         self.keep = []           # strong references (ids must not be recycled)
         self.last_struct = {}    # stream index -> last structural / thermal op kind
         self.last_set = None     # ('flow'|'total', sid, ph, i, unit, x)
+        self.detached = set()    # (id(parent), phase) already reported as detached
 
     def vnum(self, v):
         k = id(v)
@@ -175,7 +179,7 @@ class World:
         return f'v{self.views[k]}'
 
     def shared_data(self, s):
-        return any(t is not s and t._imol.data is s._imol.data for t in self.streams)
+        return any(t._imol is not s._imol and t._imol.data is s._imol.data for t in self.streams)
 
 
 def diagnose(w, s, kind, generic):
@@ -232,6 +236,38 @@ def run_ops(ops):
         if not w.streams: raise Stop()
         return int(tok) % len(w.streams)
 
+    def locked(s):
+        return (not is_multi(s)) and isinstance(s._imol._phase, tmo._phase.LockedPhase)
+
+    def reg(obj):
+        """index of a real stream object in the universe (registered on first sight)"""
+        for k, t in enumerate(w.streams):
+            if t is obj: return k
+        w.streams.append(obj)
+        return len(w.streams) - 1
+
+    def ix_shared(s):
+        return any(t is not s and t._imol is s._imol for t in w.streams)
+
+    def check_views_attached(opname):
+        """every phase view of every (un-proxied) multi-phase stream wraps the parent's row of that phase and refers to the
+        parent's thermal-condition object: a write through either is seen by the other"""
+        for sid, s in enumerate(w.streams):
+            if not is_multi(s) or ix_shared(s): continue
+            for ph, v in s._streams.items():
+                if not any(t is v for t in w.streams): continue
+                pi = s._imol._phase_indexer
+                ok = (ph in pi and not is_multi(v) and v._imol.data is s._imol.data.rows[pi(ph)]
+                      and v._thermal_condition is s._thermal_condition and v.chemicals is s.chemicals)
+                if not ok and (id(s), ph) not in w.detached:
+                    w.detached.add((id(s), ph))
+                    fail('phase-view-detached',
+                         f'after `{opname}` the phase view {ph!r} of stream {sid} no longer wraps the parent\'s row / '
+                         f'thermal condition (view flows {mol_rows(v) if not is_multi(v) else "?"}, parent row '
+                         f'{mol_rows(s)[pi(ph)] if ph in pi else "-"}; T {v.T} vs {s.T})')
+
+    RESTRUCTURING = ('setphase', 'setphases', 'link', 'unlink', 'copylike', 'thermo', 'view', 'proxy', 'flowproxy')
+
     def key_of(s, phsel, i):
         """(model ph token, model index, real key)"""
         n = len(s.chemicals)
@@ -275,7 +311,20 @@ def run_ops(ops):
         t = line.split(' ')
         op = t[0]
         tags.add(op)
-        if op == 'new1':
+        if op in RESTRUCTURING and w.streams and locked(w.streams[S(t[1])]):
+            return      # the indexer of a phase view: only its parent re-attaches it (model: Precondition)
+        if op == 'view':
+            sid = S(t[1]); s = w.streams[sid]
+            if not is_multi(s): return
+            c = s.phases[int(t[2]) % len(s.phases)]
+            v = s[c]
+            emit(f'view {sid} {c}', f'ok {reg(v)}')
+        elif op in ('proxy', 'flowproxy'):
+            sid = S(t[1]); s = w.streams[sid]
+            if len(w.streams) >= 8: return
+            v = s.proxy() if op == 'proxy' else s.flow_proxy()
+            emit(f'{op} {sid}', f'ok {reg(v)}')
+        elif op == 'new1':
             th, ph, T, P = int(t[1]), t[2], float(t[3]), float(t[4])
             thermo = THERMOS[th]
             n = len(thermo.chemicals)
@@ -352,7 +401,7 @@ def run_ops(ops):
             have = set(new.chemicals.CASs)
             for r in mol_rows(s):
                 if any(x and cas not in have for x, cas in zip(r, s.chemicals.CASs)): return
-            if w.shared_data(s) and new is not s.thermo: pass
+            if new is not s.thermo and ix_shared(s): return     # a proxy would keep its old package
             s._reset_thermo(new)
             mark_change(sid, 'thermo')
             emit(f'thermo {sid} {k} {mat(mol_rows(s))}', shape_ans(s))
@@ -627,6 +676,7 @@ def run_ops(ops):
             pending[0] = None
             try:
                 do(line)
+                check_views_attached(line.split(' ')[0])
             except Stop:
                 raise
             except Exception as e:
@@ -781,12 +831,21 @@ def gen_case(rng, length):
             ops.append(gen_read(rng, o))
             if ch.startswith(('link', 'unlink', 'copylike')) and rng.random() < 0.7:
                 ops.append(f'obs {rng.randrange(n)}')
-        elif r < 0.96:
+        elif r < 0.945:
             ops.append(f'getflow {o} {rng.choice(OTHER_UNITS)} 0 0' if rng.random() < 0.5 else
                        rng.choice([f'setflow {o} {rng.choice(OTHER_UNITS)} 0 0 1.5', f'gettotal {o} {rng.choice(OTHER_UNITS)}',
                                    f'settotal {o} {rng.choice(OTHER_UNITS)} 2']))
-        elif n < 4:
+        elif n < 4 and rng.random() < 0.4:
             ops.append(gen_new(rng, th)); n += 1
+        elif n < 8:
+            # a phase view / proxy / flow proxy of an existing stream, then work on one of the pair and look at both
+            kind = rng.choice(['view', 'view', 'proxy', 'flowproxy'])
+            ops.append(f'view {o} {rng.randrange(3)}' if kind == 'view' else f'{kind} {o}')
+            new = n; n += 1
+            for _ in range(rng.randrange(1, 4)):
+                a, b = (o, new) if rng.random() < 0.5 else (new, o)
+                ops.extend(gen_write(rng, a) if rng.random() < 0.6 else [gen_change(rng, a, n)])
+                ops += [f'obs {b}', f'obs {a}']
         if rng.random() < 0.1: focus = rng.randrange(n)
     for k in range(n): ops.append(f'obs {k}')
     return Case(ops, {})
@@ -857,6 +916,16 @@ def corpus():
         # fixes_proposed/C11-3: _expand_phases keeps the cached views of the old rows
         Case(['newm 0 gl 298.15 101325.0 0,2,0,0|1,0,0,0', 'newm 0 Lgl 298.15 101325.0 0,0,0,3|0,0,0,0|1,0,0,0', 'obs 0',
               'copylike 0 1', 'obs 0'], {'witness': 'C11-3'}),
+        # phase views, proxies, flow proxies: work on one of a pair, look at both
+        Case(['newm 0 gl 298.15 101325.0 1,2,0,0.5|0,1,0,2', 'view 0 0', 'view 0 1', 'obs 0', 'obs 1', 'obs 2', 'put 1 mass - 1 20',
+              'obs 0', 'put 0 vol 1 0 0.125', 'obs 2', 'setT 0 350.0', 'obs 1', 'unlink 0', 'put 0 mol 0 2 3', 'obs 1', 'obs 0',
+              'setphases 0 gls', 'obs 1', 'obs 2', 'thermo 0 1', 'obs 1', 'obs 2', 'setphase 0 l', 'obs 0', 'obs 1']),
+        Case(['new1 0 l 298.15 101325.0 1,2,0,0.5', 'proxy 0', 'flowproxy 0', 'obs 0', 'obs 1', 'obs 2', 'setflow 1 lb/hr 0 1 20',
+              'obs 0', 'obs 2', 'setphase 1 g', 'obs 0', 'obs 1', 'obs 2', 'setT 2 350.0', 'obs 2', 'obs 0', 'new1 0 g 320.0 50000.0 0,1,3,0',
+              'link 1 3 1 1 1', 'obs 0', 'obs 1', 'obs 3', 'unlink 0', 'put 0 mol 0 0 7', 'obs 1', 'obs 0', 'obs 2']),
+        Case(['newm 0 gl 298.15 101325.0 1,2,0,0.5|0,1,0,2', 'newm 0 gl 350.0 50000.0 0,3.25,1,0|2,0,0,0', 'view 0 1', 'view 1 1',
+              'obs 2', 'obs 3', 'link 0 1 1 0 1', 'obs 2', 'obs 0', 'put 2 mass - 0 5', 'obs 1', 'obs 3', 'link 0 1 0 0 1', 'obs 2',
+              'proxy 0', 'obs 4', 'setflow 4 kg/hr 0 1 3', 'obs 0', 'obs 2']),
         # view-to-view bulk writes between streams at different T / phase (seeded/C11-1)
         Case(['new1 0 l 298.15 101325.0 1,1,0,0', 'new1 0 l 350.0 101325.0 20,10,0,0', 'obs 0', 'obs 1', 'assign 0 vol 1 view 0 0',
               'obs 0', 'new1 0 g 400.0 101325.0 5,5,0,0', 'assign 0 vol 2 copylike 0 0', 'obs 0', 'assign 0 mass 1 view 0 0', 'obs 0']),
